@@ -183,11 +183,15 @@ class Counter:
         self.calls = {}  # (fn name) -> count
         self.by_pos = {}  # (fn name, pos bytes) -> count
         self.total = 0
+        self.events = []
+        self.pos_events = []
 
     def handler(self, name, q):
         if self.paused:
             return None
         self.total += 1
+        self.events.append(name)
+        self.pos_events.append((name, None if q is None else np.asarray(q, dtype=float).tobytes()))
         self.calls[name] = self.calls.get(name, 0) + 1
         key = (name, None if q is None else np.asarray(q, dtype=float).tobytes())
         self.by_pos[key] = self.by_pos.get(key, 0) + 1
@@ -282,7 +286,10 @@ class Machine:
         self.spec = spec
         self.counter = counter
         hooked = counter is not None
-        self.systems = [zoo.build_system(spec, hooked=hooked)[0], zoo.build_system(spec2, hooked=hooked)[0]]
+        self.systems = [zoo.build_system(spec, hooked="0:" if hooked else False)[0], zoo.build_system(spec2, hooked="1:" if hooked else False)[0]]
+        self.tuple_conv = bool(spec.get("tuple_conv"))
+        self.has = [set()]  # per state: (system idx, value name) known to be cached and valid
+        self.free_calls = 0
         self.integrators = [zoo.build_integrator(s, ispec) for s in self.systems]
         self.transitions = [mici.transitions.MetropolisStaticIntegrationTransition(s, i, n_step=2) for s, i in zip(self.systems, self.integrators)]
         self.constrained = spec["kind"] in ("con", "gcon")
@@ -321,8 +328,11 @@ class Machine:
 
         state = self.states[si]
         system = self.systems[sysi]
+        ev0 = len(self.counter.events) if self.counter is not None else 0
         try:
             val = getattr(system, meth)(state)
+            if self.counter is not None:
+                self._efficiency(si, self.counter.events[ev0:], f"{type(system).__name__}.{meth}", context)
             if self.counter is not None:
                 with paused(self.counter):
                     got = canon(val, meth, state, system)
@@ -335,16 +345,61 @@ class Machine:
             want = self._reference(sysi, meth, state)
             self.n_checked += 1
             if not same(got, want):
-                alias = self._is_alias(val, state)
-                cls = "alias" if alias else "stale"
+                root = self._alias_root()
+                cls = "alias" if root else "stale"
                 self.violations.append(
                     violation(
                         f"cache-{cls}",
-                        f"cache-{cls}:{type(system).__name__}.{meth}",
+                        f"cache-alias:{root}" if root else f"cache-stale:{type(system).__name__}.{meth}",
                         f"{type(system).__name__}.{meth}(state[{si}]) returned {np.ravel(got[-1])[:4].tolist()} but evaluated from scratch on the same variable values it is {np.ravel(want[-1])[:4].tolist()}; history: {context}",
                     )
                 )
         return val
+
+    PROVIDES_TUPLE = {
+        "grad_neg_log_dens": ("grad_neg_log_dens", "neg_log_dens"),
+        "hess_neg_log_dens": ("hess_neg_log_dens", "grad_neg_log_dens", "neg_log_dens"),
+        "mtp_neg_log_dens": ("mtp_neg_log_dens", "hess_neg_log_dens", "grad_neg_log_dens", "neg_log_dens"),
+        "vjp_metric_func": ("vjp_metric_func", "metric_func"),
+        "jacob_constr": ("jacob_constr", "constr"),
+        "mhp_constr": ("mhp_constr", "jacob_constr", "constr"),
+    }
+    CALLABLE_VALUES = ("vjp_metric_func", "mtp_neg_log_dens", "mhp_constr")
+
+    def _efficiency(self, si, events, what, context):
+        """C18 (a)/(b): a user function must not be evaluated for a value the state already holds."""
+        from simkit.core import violation
+
+        has = self.has[si]
+        if not events:
+            self.free_calls += 1
+        for name in events:
+            k, fn = name.split(":", 1)
+            k = int(k)
+            if (k, fn) in has:
+                self.violations.append(
+                    violation("recomputed", f"recomputed:{fn}",
+                              f"{what}(state[{si}]) evaluated user function {fn} of system {k} although its value was already available for this state (cached by an earlier call, copy or auxiliary output); history: {context}")
+                )
+                return
+            provided = self.PROVIDES_TUPLE.get(fn, (fn,)) if self.tuple_conv else (fn,)
+            # SoftAbs systems: metric_func / vjp_metric_func are the Hessian / MTP functions
+            for v in provided:
+                has.add((k, v))
+
+    def _alias_root(self):
+        """If some state's cache holds an array that shares memory with a state variable of
+        ANY state in the pool, name it: '<cached method>-><variable>' (root cause class)."""
+        roots = set()
+        for s in self.states:
+            for (kname, _id), cval in list(dict.items(s._cache)):  # noqa: SLF001
+                if not isinstance(cval, np.ndarray):
+                    continue
+                for t in self.states:
+                    for vname, v in t._variables.items():  # noqa: SLF001
+                        if isinstance(v, np.ndarray) and np.shares_memory(v, cval):
+                            roots.add(f"{kname.split('.', 1)[1]}->{vname}")
+        return sorted(roots)[0] if roots else None
 
     def _is_alias(self, val, state):
         if not isinstance(val, np.ndarray):
@@ -377,6 +432,8 @@ class Machine:
                         continue
                     var, seed = op[2], op[3]
                     g = np.random.default_rng(seed)
+                    if var == "pos":
+                        self.has[si] = set()
                     if var == "dir":
                         state.dir = 1 if seed % 2 else -1
                     elif var == "pos":
@@ -391,6 +448,8 @@ class Machine:
                         self.skipped += 1
                         continue
                     var, how, seed = op[2], op[3], op[4]
+                    if var == "pos":
+                        self.has[si] = set()
                     g = np.random.default_rng(seed)
                     if how == "mul":
                         f = 0.5 + g.uniform()
@@ -406,19 +465,22 @@ class Machine:
                             state.mom += d
                 elif kind == "copy":
                     new = state.copy(read_only=bool(op[2]))
-                    self._add(new, bool(op[2]))
+                    self._add(new, bool(op[2]), set(self.has[si]))
                 elif kind == "pickle":
                     self.states[si] = pickle.loads(pickle.dumps(state))
+                    self.has[si] = {(k, v) for (k, v) in self.has[si] if v not in self.CALLABLE_VALUES}
                 elif kind == "flow":
                     if ro:
                         self.skipped += 1
                         continue
                     system = self.systems[op[2]]
                     (system.h1_flow if op[3] == "h1" else system.h2_flow)(state, op[4])
+                    # evaluations made inside a flow are not judged; afterwards nothing is assumed cached
+                    self.has[si] = set()
                 elif kind == "step":
                     try:
                         new = self.integrators[op[2]].step(state)
-                        self._add(new, False)
+                        self._add(new, False, set())
                     except mici.errors.IntegratorError:
                         self.skipped += 1
                 elif kind == "transition":
@@ -429,6 +491,7 @@ class Machine:
                     try:
                         new, _ = self.transitions[op[2]].sample(state, rng)
                         self.states[si] = new
+                        self.has[si] = set()
                     except (mici.errors.Error, ValueError, np.linalg.LinAlgError):
                         self.skipped += 1
             except mici.errors.ReadOnlyStateError:
@@ -437,15 +500,18 @@ class Machine:
             if self.violations:
                 return
 
-    def _add(self, new, ro):
+    def _add(self, new, ro, has=None):
+        has = set() if has is None else has
         if len(self.states) < 4:
             self.states.append(new)
             self.read_only.append(ro)
+            self.has.append(has)
             self.last_added = len(self.states) - 1
         else:
             k = (self.ops_done * 7 + 1) % 4
             self.states[k] = new
             self.read_only[k] = ro
+            self.has[k] = has
             self.last_added = k
 
 
